@@ -91,9 +91,9 @@ def run_sequence(rebound, sp):
     integ, coord, opts = sp["integ"], sp["coord"], sp["opts"]
     configure(sim, integ, coord, opts)
     if sp.get("var") is not None:
-        v = sim.add_variation(testparticle=1)
+        v = sim.add_variation()          # WHFast supports full first-order variations only
         for k, val in zip(F6, sp["var"]):
-            setattr(v.particles[0], k, val)
+            setattr(v.particles[1], k, val)
     if sp.get("callbacks"):
         callbacks(sim)
 
@@ -108,8 +108,8 @@ def run_sequence(rebound, sp):
     def varstate(sim):
         if sp.get("var") is None:
             return None
-        vp = sim.var_config[0].particles[0]
-        return [getattr(vp, k) for k in F6]
+        vp = sim.var_config[0].particles
+        return [getattr(vp[1], k) - getattr(vp[0], k) for k in F6]
 
     cps = []
     el = 0.0
@@ -534,7 +534,7 @@ def gen_options(rng, integ, coord, tags):
     o = {}
     if integ == "whfast":
         o["safe_mode"] = rng.randint(0, 1)
-        o["keep_unsynchronized"] = rng.randint(0, 1)
+        o["keep_unsynchronized"] = rng.randint(0, 1) if o["safe_mode"] == 0 else 0
         if coord in ("jacobi", "bary") and rng.chance(0.6):
             o["corrector"] = rng.choice([3, 5, 7, 11, 17])
             tags.add("option:corrector")
@@ -548,7 +548,7 @@ def gen_options(rng, integ, coord, tags):
     elif integ == "saba":
         o["type"] = rng.choice(SABA_TYPES)
         o["safe_mode"] = rng.randint(0, 1)
-        o["keep_unsynchronized"] = rng.randint(0, 1)
+        o["keep_unsynchronized"] = rng.randint(0, 1) if o["safe_mode"] == 0 else 0
         tags.add("option:saba_type")
     elif integ == "mercurius":
         o["safe_mode"] = rng.randint(0, 1)
@@ -621,7 +621,7 @@ def gen_sequence(rng, idx):
         tags.add("callbacks:heartbeat_pre_post_additional_forces")
     if integ == "whfast" and coord == "jacobi" and role != "tp1" and rng.chance(0.5) and "kernel" not in opts:
         sp["var"] = [rng.normal() * sx for _ in range(3)] + [rng.normal() * sv for _ in range(3)]
-        tags.add("variational:nonzero_testparticle_variation")
+        tags.add("variational:nonzero_variation_riding_along")
     acts = sp["actions"]
     nseg = rng.randint(1, 3)
     for sgi in range(nseg):
@@ -1450,7 +1450,7 @@ def run_(c):
                 "time:integrate_exact_finish_1", "time:integrate_exact_finish_omitted", "time:huge_t_over_dt", "time:several_steps",
                 "callbacks:heartbeat_pre_post_additional_forces", "history:restore_archive", "history:restore_copy", "history:restore_pickle",
                 "history:explicit_synchronize", "history:integrator_switch", "history:user_edit_between_steps",
-                "variational:nonzero_testparticle_variation", "geometry:com_offset_and_boost", "geometry:hyperbolic",
+                "variational:nonzero_variation_riding_along", "geometry:com_offset_and_boost", "geometry:hyperbolic",
                 "role:tp0:massive", "role:tp0:massless", "role:tp1:massive", "role:tp1:massless", "role:active:massive", "role:active:massless",
                 "scale:N_>128_test_particles", "solver_tie:elliptic_bisection_dt_negative", "solver_tie:hyperbolic_dt_negative",
                 "solver_tie:variational_particle_nonzero", "kepler_step_tie:N_active_lt_N", "jump_step_tie:testparticle_type_1"] + \
